@@ -101,6 +101,24 @@ FMT_RE = re.compile(r"\bfmt::|\bfmt::rt::")
 UNBOUNDED_RE = re.compile(r"iter::(Iterator::cycle|repeat|repeat_with|successors|from_fn|once_with)\b|sources::")
 
 
+def strip_turbofish(n):
+    """drop a trailing `::<...>` generic argument list (method-level turbofish)"""
+    if not n or not n.endswith(">"):
+        return n
+    depth = 0
+    for i in range(len(n) - 1, -1, -1):
+        ch = n[i]
+        if ch == ">":
+            depth += 1
+        elif ch == "<":
+            depth -= 1
+            if depth == 0:
+                if i >= 2 and n[i - 2:i] == "::":
+                    return n[:i - 2]
+                return n
+    return n
+
+
 def callee_name(c):
     return c.get("resolved_args") or c.get("resolved") or c.get("path_args") or c.get("path") or c.get("ty") or "?"
 
@@ -111,8 +129,8 @@ def classify(callee, crate="ta", local_traits=()):
         return ("unknown", "indirect call through " + str(callee.get("ty")))
     res_local = callee.get("resolved_local")
     krate = callee.get("resolved_krate") or callee.get("krate")
-    name = callee_name(callee)
-    generic_name = callee.get("path_args") or callee.get("path") or ""
+    name = strip_turbofish(callee_name(callee))
+    generic_name = strip_turbofish(callee.get("path_args") or callee.get("path") or "")
     if res_local or (callee.get("local") and not callee.get("trait")):
         return ("local", name)
     if callee.get("local") and callee.get("trait") and not callee.get("resolved"):
